@@ -101,6 +101,7 @@ class C05(engine.Property):
         "unset-end-dropped-from-an-edge",
         "end-assignment-on-an-edge-naming-a-further-vertex",
         "adjacency-values-are-a-running-traversal",
+        "equal-but-distinct-vertices-named-in-turn",
     ]
 
     # -- configuration -------------------------------------------------------------
@@ -155,6 +156,7 @@ class C05(engine.Property):
         elif rng.random() < 0.2:
             # vertices with value equality: equal-but-distinct ends, hash by value
             cfg["vertex_classes"] = ["EqVertex"] if rng.random() < 0.5 else ["EqVertex", "Vertex"]
+            cfg["p_repair"] = 0.1
         elif rng.random() < 0.15:
             # a vertex that refuses a third link by raising out of its add_to_link
             # override: library calls fail half-way and leave half-attached edges
@@ -299,6 +301,40 @@ class C05(engine.Property):
                     half.append((e, x))
             if None in ends and len(ends) >= 2:
                 unset.append(e)
+        twins = {}
+        for v in view.vertices():
+            d = view.snap[v]
+            if d.get("cls") == "EqVertex":
+                twins.setdefault(getattr(st.exB.w.objs.get(v), "sim_tag", None), []).append(v)
+        twins = [g for g in twins.values() if len(g) >= 2]
+        if twins and rng.random() < 0.6:
+            # two distinct vertices that compare equal, each named in turn to
+            # the same query from one third vertex
+            t1, t2 = rng.sample(rng.choice(twins), 2)
+            hubs = [v for v in view.vertices() if view.links_of(v)] or view.vertices()
+            hub = rng.choice(hubs)
+            st.stats["probe:equal-but-distinct-vertices-named-in-turn"] += 1
+            fn = rng.choice(["unlink", "link", "edge"])
+            if fn == "edge":
+                # ... or made the two ends of one edge, with warm answers before
+                reads = [{"op": "neighbors", "v": x, "unk": "nb", "dir": d} for x in (t1, t2) for d in ("any", "fwd")]
+                e = st.namer.new("e")
+                if rng.random() < 0.5:
+                    ops = [{"op": "mk_edge", "new": e, "cls": rng.choice(["DirectedEdge", "UnDirectedEdge"]), "a": t1, "b": t2}]
+                    return reads + ops + [dict(r) for r in reads] + [{"op": "unlink_from", "e": e, "v": rng.choice([t1, t2])}] + [dict(r) for r in reads]
+                # an edge from somewhere to one twin; its other end is then
+                # re-pointed at the other twin through the edge's own setter
+                ops = [{"op": "mk_edge", "new": e, "cls": rng.choice(["DirectedEdge", "UnDirectedEdge"]), "a": hub, "b": t2}]
+                return ops + reads + [{"op": "set_end", "e": e, "which": 1, "x": t1}] + [dict(r) for r in reads]
+            if fn == "unlink":
+                ops = [{"op": "unlink", "a": hub, "b": t1}, {"op": "unlink", "a": hub, "b": t2}]
+            else:
+                ops = [
+                    {"op": "link", "new": st.namer.new("e"), "fn": "link_from_to", "cls": "DirectedEdge", "a": hub, "b": t1, "dontdup": True},
+                    {"op": "link", "new": st.namer.new("e"), "fn": "link_from_to", "cls": "DirectedEdge", "a": hub, "b": t2, "dontdup": True},
+                ]
+            reads = [{"op": "neighbors", "v": x, "unk": "nb", "dir": "any"} for x in (hub, t1, t2)]
+            return ops + reads
         if extra and rng.random() < 0.5:
             # a two-ended edge that names a vertex beyond its two ends: that
             # vertex is promoted to an end (or an end named a third time is
